@@ -29,7 +29,6 @@ import (
 	"github.com/mycoria/mycoria/config"
 	"github.com/mycoria/mycoria/frame"
 	"github.com/mycoria/mycoria/m"
-	"github.com/mycoria/mycoria/mgr"
 	"github.com/mycoria/mycoria/router"
 	"github.com/mycoria/mycoria/storage"
 )
@@ -576,58 +575,113 @@ type peeringRequest struct {
 	TunMTU        int             `cbor:"tmtu,omitempty"`
 }
 
+// peeringRequestWire builds the signed first handshake message carrying the identity.
+func peeringRequestWire(tw *tworld, id ident) ([]byte, bool) {
+	req := peeringRequest{RouterVersion: "v", Address: *id.pub(), Challenge: make([]byte, 32), LinkVersion: 1}
+	msg, err := cbor.Marshal(&req)
+	if err != nil {
+		return nil, false
+	}
+	b := tw.x.FrameBuilder()
+	b.SetFrameMargins(2, 0)
+	f, err := b.NewFrameV1(id.ip, m.RouterAddress, frame.RouterPing, nil, msg, nil)
+	if err != nil {
+		return nil, false
+	}
+	signRaw(f, f, id.priv, sigDRBG)
+	f.SetTTL(1)
+	data, _ := f.FrameDataWithMargins(2, 0)
+	m.PutUint16(data[:2], uint16(len(data)))
+	wire := append([]byte(nil), data...)
+	f.ReturnToPool()
+	return wire, true
+}
+
+// isSetupErrorNotice reports whether a handshake message on the wire is the error
+// notice a router sends when it gives up (a CBOR map with a non-empty "err").
+func isSetupErrorNotice(wire []byte) bool {
+	if len(wire) < 2+51 {
+		return false
+	}
+	raw := wire[2:]
+	sw := int(raw[48])
+	if len(raw) < 51+sw {
+		return false
+	}
+	ml := int(raw[49+sw])<<8 | int(raw[50+sw])
+	if len(raw) < 51+sw+ml {
+		return false
+	}
+	var v map[string]any
+	if err := cbor.Unmarshal(raw[51+sw:51+sw+ml], &v); err != nil {
+		return false
+	}
+	e, _ := v["err"].(string)
+	return e != ""
+}
+
 // epPeeringRequest presents the identity in a peering request on a real link setup.
-func epPeeringRequest(t *testing.T, id ident) (v verdict) {
+// With known != nil the router has met that (valid) identity on an earlier connection
+// - it holds a stored record and a session for the address - and acceptance is
+// observed on the wire: the router answers the request with anything but an error notice.
+func epPeeringRequest(t *testing.T, id ident, known *ident) (v verdict) {
 	if !id.ip.IsValid() || !id.ip.Is6() {
 		return verdict{na: true}
 	}
 	synctest.Test(t, func(t *testing.T) {
 		tw := newTWorld()
-		req := peeringRequest{RouterVersion: "v", Address: *id.pub(), Challenge: make([]byte, 32), LinkVersion: 1}
-		msg, err := cbor.Marshal(&req)
-		if err != nil {
-			v.na = true
-			return
+		present := func(wire []byte) (replies [][]byte, done bool) {
+			ep := kit.NewEndpoint("adv")
+			go func() {
+				if _, pv := kit.Accept(tw.r, ep); pv != nil {
+					v.panicked, v.detail = true, fmt.Sprint(pv)
+				}
+				done = true
+			}()
+			synctest.Wait()
+			ep.Take() // R's own request
+			ep.Feed(wire)
+			synctest.Wait()
+			replies = ep.Take()
+			ep.FeedEOF()
+			synctest.Wait()
+			return replies, done
 		}
-		b := tw.x.FrameBuilder()
-		b.SetFrameMargins(2, 0)
-		f, err := b.NewFrameV1(id.ip, m.RouterAddress, frame.RouterPing, nil, msg, nil)
-		if err != nil {
-			v.na = true
-			return
-		}
-		signRaw(f, f, id.priv, sigDRBG)
-		f.SetTTL(1)
-		data, _ := f.FrameDataWithMargins(2, 0)
-		m.PutUint16(data[:2], uint16(len(data)))
-		wire := append([]byte(nil), data...)
-		f.ReturnToPool()
-
-		ep := kit.NewEndpoint("adv")
-		var setupErr error
-		var done bool
-		go func() {
-			if _, pv := kit.Accept(tw.r, ep); pv != nil {
-				v.panicked, v.detail = true, fmt.Sprint(pv)
+		if known != nil {
+			w0, ok := peeringRequestWire(tw, *known)
+			if !ok {
+				v.na = true
+				return
 			}
-			done = true
-		}()
-		synctest.Wait()
-		ep.Take() // R's own request
-		ep.Feed(wire)
-		synctest.Wait()
-		ep.FeedEOF()
-		synctest.Wait()
+			replies, _ := present(w0)
+			if tw.leftover(known.ip) == "" || len(replies) == 0 {
+				panic("harness: the valid identity was not accepted on the first connection")
+			}
+			time.Sleep(3 * time.Second)
+		}
+		wire, ok := peeringRequestWire(tw, id)
+		if !ok {
+			v.na = true
+			return
+		}
+		replies, done := present(wire)
 		if !done {
 			v.detail = "setup did not return"
 		}
-		if errors.Is(setupErr, mgr.ErrWorkerPanic) {
-			v.panicked = true
-		}
-		v.leftover = tw.leftover(id.ip)
-		v.accepted = v.leftover != ""
-		if setupErr != nil && v.detail == "" {
-			v.detail = setupErr.Error()
+		if known != nil {
+			for _, r := range replies {
+				if !isSetupErrorNotice(r) {
+					v.accepted = true
+					v.leftover = "the router went on with the handshake (it answered the request with a peering response)"
+				}
+			}
+			if string(tw.storedKey(id.ip)) != string(known.key) {
+				v.accepted = true
+				v.leftover += " stored key of the known router changed"
+			}
+		} else {
+			v.leftover = tw.leftover(id.ip)
+			v.accepted = v.leftover != ""
 		}
 		_ = tw.r.Peering().Stop()
 		synctest.Wait()
@@ -640,7 +694,7 @@ func epPeeringRequest(t *testing.T, id ident) (v verdict) {
 func TestC01(t *testing.T) {
 	env := kit.GetEnv()
 	rep := kit.NewReport("C01", env)
-	rep.Rule = "per base identity: the valid identity, every single field deviation (128 address bit flips + 7 foreign/invalid addresses, 14 other known + 4 unknown hash names incl. empty and 300-byte, 5 key-type names incl. empty/256-byte, 256 key bit flips + 5 odd key sizes + zero key, 3 easing values; plus an identity that really uses easing with 14 other easing values incl. ones differing only in a high-order byte) at all six entry points; every PAIR of deviations of different fields at the pure entry points; ~50 self-consistent forgeries (address recomputed as the digest of a malformed identity: 5 hashes x 5 key-type names x 6 key sizes) and 6 well-formed identities whose matching digest lies outside fd00::/8, at all entry points; the address of an already known router presented with a foreign key (hop record, ping header); presentation sequences bad->good and good->bad on one long-lived router; announcements with chains of 2 and 3 nested hop records of unknown routers (every resulting record and session bound to its own address and key); generator over all subsets of a 5-prefix acceptable alphabet x all subsets of a 4-prefix ignore alphabet x maxEasing {0,3} (satisfiable ones + cheap unsatisfiable ones), each call sharing its ignore list with an earlier call for another acceptable set; non-trivial = case deviates from the valid identity; distinct = distinct (identity, entry point)"
+	rep.Rule = "per base identity: the valid identity, every single field deviation (128 address bit flips + 7 foreign/invalid addresses, 14 other known + 4 unknown hash names incl. empty and 300-byte, 5 key-type names incl. empty/256-byte, 256 key bit flips + 5 odd key sizes + zero key, 3 easing values; plus an identity that really uses easing with 14 other easing values incl. ones differing only in a high-order byte) at all six entry points; every PAIR of deviations of different fields at the pure entry points; ~50 self-consistent forgeries (address recomputed as the digest of a malformed identity: 5 hashes x 5 key-type names x 6 key sizes) and 6 well-formed identities whose matching digest lies outside fd00::/8, at all entry points; the address of an already known router presented with a foreign key (hop record, ping header); every deviation that keeps the address presented in a peering request by a router that is ALREADY KNOWN under its valid identity (learned on an earlier connection; request signed with the router's real key), where acceptance is observed on the wire (the router answers with anything but an error notice) and in the stored key; presentation sequences bad->good and good->bad on one long-lived router; announcements with chains of 2 and 3 nested hop records of unknown routers (every resulting record and session bound to its own address and key); generator over all subsets of a 5-prefix acceptable alphabet x all subsets of a 4-prefix ignore alphabet x maxEasing {0,3} (satisfiable ones + cheap unsatisfiable ones), each call sharing its ignore list with an earlier call for another acceptable set; non-trivial = case deviates from the valid identity; distinct = distinct (identity, entry point)"
 	rep.Assumptions = []string{
 		"the reference predicate uses crop's hash primitives (not m/address.go) to recompute digests",
 		"key material inside the generator comes from the process RNG: the prefix-configuration space is exhaustive, the key space cannot be",
@@ -726,7 +780,14 @@ func TestC01(t *testing.T) {
 			judge("ping-header", id, tw.epPingHeader(id), false)
 			tw = newTWorld()
 			judge("hop-record", id, tw.epHopRecord(id), false)
-			judge("peering-request", id, epPeeringRequest(t, id), false)
+			judge("peering-request", id, epPeeringRequest(t, id, nil), false)
+			// the same identity presented by a router that is already known under its valid
+			// identity (same address, request signed with the real key).
+			if id.ip == base.ip && base.priv != nil {
+				kid := id
+				kid.priv = base.priv
+				judge("peering-request/known-router", kid, epPeeringRequest(t, kid, &base), false)
+			}
 		}
 
 		// the address of a router that is already known, presented with a foreign key.
